@@ -5,7 +5,7 @@ import LdkModel.Model.ChainSync
         client <tip> <cached ids…> | best <id> | clientinit | hidden <ids…> |
         sched <k:kind…> (what the source answers to request k: t|p = Err, hash:<id> = another block, pow = PoW fails,
           height / work = claimed height / chainwork off by one, merkle = full block with a wrong merkle root) |
-        poll <fingerprint> (answer ends in `| cache <ids of the header cache afterwards>`) | init <id:height:p1,p2,-,…>…
+        poll <fingerprint> (answer ends in `| cache <ids of the header cache afterwards>`) | init <id:height:p1,p2,-,…>… (a failed one answers `err <t|p> r<requests>`: the BlockSourceErrorKind)
    The source is an `Adv` (raw answers) run through the translated Validate layer (`Adv.toSource`). -/
 namespace Ldk.Driver
 open Ldk Ldk.ChainSync
@@ -122,7 +122,7 @@ def c20 : Drv where
     | "init" :: locs =>
       let o := synchronizeListeners (c20Source st) (locs.map parseLocator)
       let head := match o.result with
-        | .error _ => s!"err r{o.reqs}"
+        | .error e => "err " ++ (if e.isTransient then "t" else "p") ++ s!" r{o.reqs}"
         | .ok (b, c) => s!"ok {b.hash} r{o.reqs} cache " ++ " ".intercalate ((sortNats (c.map (·.hash))).map toString)
       let li := match o.result with | .ok (b, c) => some (Client.mk b c) | .error _ => none
       ({ st with lastInit := li }, (" | ".intercalate (head :: o.notifs.map showNotifs)).trimAscii.toString)
